@@ -151,6 +151,21 @@ Definition cksum (f : list Z) : Z := fold_left (fun a b => (a * 31 + b) mod 6552
 
 (* ---------------------------------------------------------------------------------------------- *)
 (* enc mode (C05): serialize / deserialize / sizes                                                 *)
+(* initialisers (UnsizedInit): the kinds the harness shape supports - every type DefaultInit (0); List also the arrays of
+   3 and of 300 all-ones items (1, 2); RemainingBytes also [1; 3] (1).  Per kind: kind, INIT_BYTES, then either
+   0 consumed tail_untouched nbytes bytes.. reparse   or   1 code *)
+Definition init_kinds (t : ty) : list Z :=
+  match t with TList _ _ => [0; 1; 2] | TRem => [0; 1] | _ => [0] end.
+
+Definition init_obs (t : ty) (kind : Z) : list Z :=
+  [kind; init_size t kind] ++
+  match init_bytes t kind with
+  | Ok b =>
+      [0; zlen b; 1; zlen b] ++ b ++
+      [match parse true t b with Ok (_, n) => if n =? zlen b then 0 else 1 | _ => 1 end]
+  | o => out_tag o
+  end.
+
 Definition run_enc (input0 : list Z) : list Z :=
   let input := tl input0 in     (* the harness's shape index *)
   match dec_ty (length input) input with
@@ -166,6 +181,7 @@ Definition run_enc (input0 : list Z) : list Z :=
           [size; 0; zlen bs; 0; zlen bs] ++ bs ++ rt ++ [0; zlen bs; 5; 1]
           ++ (if 0 <? size then [1; EC_ADVANCE_ERROR] else [9])
           ++ [0; 1]
+          ++ [-790] ++ flat_map (init_obs t) (init_kinds t)
       | None => [-1]
       end
   | None => [-1]
